@@ -62,12 +62,16 @@ TWalk == /\ Step("Walk") /\ AllIdle /\ ItemsMatch
          /\ UNCHANGED <<set, pend>>
 (* a reader's scan / visit of an open snapshot, concurrent with writers: exactly the snapshot's content (C01) *)
 TRScan == /\ Step("RScan") /\ Ev.sn \in DOMAIN views /\ Ev.items = views[Ev.sn] /\ UNCHANGED <<set, pend, views>>
+(* a backup of an open snapshot taken while writers, readers and GC were running, restored into a fresh
+   instance: exactly that snapshot's content and Count (C05) *)
+TRestore == /\ Step("Restore") /\ Ev.stored /\ Ev.loaded /\ Ev.sn \in DOMAIN views
+            /\ Ev.items = views[Ev.sn] /\ Ev.count = Len(views[Ev.sn]) /\ UNCHANGED <<set, pend, views>>
 (* every snapshot closed and a collection pass forced: exactly the live items remain linked (C06), statistics agree *)
 TPhys == /\ Step("Phys") /\ AllIdle /\ ItemsMatch
          /\ Ev.marked = 0 /\ Ev.softdel = 0 /\ Ev.nodes = Len(Ev.items) /\ Ev.statmem = Ev.walkmem
          /\ UNCHANGED <<set, pend, views>>
 TDone == l = N + 1 /\ UNCHANGED lvars
-TNext == TReset \/ TSkip \/ TCall \/ (\E p \in DOMAIN pend : Lin(p)) \/ TRet \/ TWalk \/ TRScan \/ TPhys \/ TDone
+TNext == TReset \/ TSkip \/ TCall \/ (\E p \in DOMAIN pend : Lin(p)) \/ TRet \/ TWalk \/ TRScan \/ TRestore \/ TPhys \/ TDone
 TSpec == TInit /\ [][TNext]_lvars
 NotAccepted == l # N + 1
 Post == PrintT(<<"HIGHWATER", TLCGet(1)>>)
